@@ -521,6 +521,8 @@ impl TaskEmitter {
         *seq += 1;
 
         let _ = self.sender.send(event.clone());
+        #[cfg(feature = "verif")]
+        rip_kernel::verif::yield_async("task_emit:after_publish").await;
         let mut guard = self.events.lock().await;
         guard.push(event.clone());
         let _ = self.event_log.append(&event);
